@@ -162,7 +162,7 @@ func runReader(c *core.Ctx, tabs *Tables, pkg, name string, lines []string, hard
 			args = append(args, eval.Opaque{Why: "reader input"})
 		}
 	}
-	v, err := ev.CallFunc(fn, args...)
+	v, err := ev.CallFuncBound(fn, args...)
 	if err != nil {
 		msg := err.Error()
 		if strings.Contains(msg, "out of range") || strings.Contains(msg, "panic") {
